@@ -71,7 +71,12 @@ func hiddenProfile(c *core.Ctx, g *gen.Gen) *gen.Node {
 		k := annotKinds[r.Intn(len(annotKinds)-1)] // without the barrier entry
 		hs = g.Around(k, hs)
 	}
-	hk := append(append([]string(nil), gen.BarrierKinds...), gen.WrapHiddenKinds...)
+	var hk []string
+	for _, k := range append(append([]string(nil), gen.BarrierKinds...), gen.WrapHiddenKinds...) {
+		if gen.Specs[k].W > 0 { // weight 0: only ever placed explicitly
+			hk = append(hk, k)
+		}
+	}
 	k := hk[r.Intn(len(hk))]
 	var n *gen.Node
 	if gen.Specs[k].Class == gen.Barrier {
@@ -93,6 +98,10 @@ func runC07(c *core.Ctx) {
 		t = g.Sweep(c.Case)
 	} else {
 		t = hiddenProfile(c, g)
+	}
+	if c.Case%12 == 5 {
+		// an override with the EMPTY message (only ever at the root: texts above an empty text are irregular)
+		t = &gen.Node{Kind: "handledmsgempty", Hidden: []*gen.Node{t}}
 	}
 	coverTree(c, t)
 	e, m, ok := safeBuild(c, t)
